@@ -28,8 +28,8 @@ misplacement is a silent swap rather than a crash) at the top level or inside an
 interval / outer struct, generates a value, and rebuilds EVERY struct node of the value (top level and nested) as an
 hl.Struct / dict / OrderedDict / frozendict whose key order is a non-identity permutation of the type's field order (missing
 fields included, so missing bits have to move with their field).  Oracles A and B are unchanged: both are name-directed (veq /
-neutral_of read v[field]), so they demand exactly "field f of the value ends up in slot f of the type".  A failure that
-disappears when the same value is presented in type order is keyed '<oracle>/struct-key-order-<how>'.
+neutral_of read v[field]), so they demand exactly "field f of the value ends up in slot f of the type".  A failure whose smallest
+failing node is a re-keyed struct that does not fail when presented in type order is keyed '<oracle>/struct-key-order-<how>'.
 """
 import struct
 
@@ -59,8 +59,13 @@ FLOORS = {
     'saw[interval]': 1000, 'saw[call]': 1000, 'saw[locus]': 1000, 'saw[ndarray_C]': 100, 'saw[ndarray_F]': 100, 'saw[ndarray_T]': 100, 'saw[ndarray_strided]': 100,
     'saw[ndarray_zero_dim]': 50, 'saw[set_with_missing]': 200, 'saw[dict_missing_value]': 200, 'saw[dict_missing_key]': 50, 'saw[empty]': 1000,
     'etype[EArray-required]': 500, 'etype[EArray]': 2000, 'etype[EBaseStruct]': 5000, 'etype[ENDArrayColumnMajor]': 300,
-    # phase keyorder (filled in from the minimum over quick seeds 0..4, halved)
-
+    # phase keyorder: about half of the minimum over quick seeds 0..4
+    'keyorder_python_roundtrips': 1500, 'keyorder_engine_layout_decodes': 1500, 'keyorder[frontend_typecheck_accepts]': 1500,
+    'keyorder[cases_with_rekeyed_struct]': 1300, 'keyorder[structs_rekeyed]': 10_000, 'keyorder[rekeyed_top]': 280, 'keyorder[rekeyed_nested]': 9500,
+    'keyorder[same_typed_fields_displaced]': 3600, 'keyorder[different_typed_fields_displaced]': 8500, 'keyorder[missing_bit_displaced]': 3700,
+    'keyorder[crosses_missing_byte]': 2000, 'keyorder[as_Struct]': 4600, 'keyorder[as_dict]': 1900, 'keyorder[as_OrderedDict]': 900, 'keyorder[as_frozendict]': 2200,
+    'keyorder[in_top]': 130, 'keyorder[in_array]': 120, 'keyorder[in_set]': 125, 'keyorder[in_dict_key]': 130, 'keyorder[in_dict_value]': 130, 'keyorder[in_tuple]': 130,
+    'keyorder[in_interval]': 150, 'keyorder[in_struct_field]': 150, 'keyorder[in_array_of_outer]': 130,
 }
 
 
@@ -320,9 +325,9 @@ def stable_repr(t, v):
     return repr(v)
 
 
-def rekey(rng, G, t, v, canonical=False, hashable=False, depth=0, note=None, sig=None):
+def rekey(rng, G, t, v, hashable=False, depth=0, note=None, sig=None):
     """Rebuild `v` (of type `t`) with every struct node presented as a Mapping whose key order is a non-identity permutation of
-    the type's field order (`canonical=True`: in the type's order, same representations otherwise irrelevant).  Everything else
+    the type's field order (p=0.9 per node with >= 2 fields; representation Struct / dict / OrderedDict / frozendict).  Everything else
     (element order, missingness, leaf objects) is kept."""
     from collections import OrderedDict
 
@@ -332,7 +337,7 @@ def rekey(rng, G, t, v, canonical=False, hashable=False, depth=0, note=None, sig
     from hailtop.hail_frozenlist import frozenlist
 
     def sub(tt, x, **kw):
-        return rekey(rng, G, tt, x, canonical=canonical, depth=depth + 1, note=note, sig=sig, **{'hashable': hashable, **kw})
+        return rekey(rng, G, tt, x, depth=depth + 1, note=note, sig=sig, **{'hashable': hashable, **kw})
 
     if v is None:
         return None
@@ -360,7 +365,7 @@ def rekey(rng, G, t, v, canonical=False, hashable=False, depth=0, note=None, sig
     fields = list(t.fields)
     vals = {f: sub(tt, v[f]) for f, tt in t.items()}
     order = list(fields)
-    if not canonical and len(fields) >= 2 and rng.random() < 0.9:
+    if len(fields) >= 2 and rng.random() < 0.9:
         how = rng.choice(['shuffle', 'shuffle', 'reverse', 'rotate', 'swap2'])
         if how == 'shuffle':
             rng.shuffle(order)
@@ -414,7 +419,9 @@ def rekey(rng, G, t, v, canonical=False, hashable=False, depth=0, note=None, sig
 # =================================================================================================
 def run(ctx):
     import os
-    import random
+    from collections.abc import Mapping
+
+    import numpy as np
 
     import hail.expr.types as T
 
@@ -459,8 +466,18 @@ def run(ctx):
             return False
 
     def accepts(t, v):
+        """the check hl.literal(v, t) performs before EncodedLiteral(t, v) (functions.py:395-431: dtype._traverse(x, typecheck_expr), missing
+        values are not descended into, a top-level numpy array is not checked)"""
+
+        def typecheck_expr(tt, x):
+            if x is None:
+                return False
+            tt._typecheck_one_level(x)
+            return True
+
         try:
-            t.typecheck(v)
+            if not isinstance(v, np.ndarray):
+                t._traverse(v, typecheck_expr)
             return True
         except Exception as e:
             ctx.seen('keyorder_typecheck_rejections', f'{type(e).__name__}: {A(str(e))[:80]}')
@@ -484,10 +501,11 @@ def run(ctx):
         that the same value presented in the type's field order does not show is keyed '<oracle>/struct-key-order-<how>'."""
 
         def key_of(prefix, nt, nv, how, ok):
-            if keyorder:
+            # nt/nv: smallest failing node.  Key-order mechanism = that node is a struct presented out of the type's order and
+            # the very same node presented in the type's order (children untouched) does not fail.
+            if keyorder and isinstance(nt, T.tstruct) and isinstance(nv, Mapping) and list(nv.keys()) != list(nt.fields):
                 try:
-                    cv = rekey(random.Random(0), G, t, v, canonical=True)
-                    if ok(t, cv):
+                    if all(f in nv for f in nt.fields) and ok(nt, {f: nv[f] for f in nt.fields}):
                         return f'{prefix}/struct-key-order-{how}'
                 except Exception:
                     pass
@@ -561,8 +579,7 @@ def run(ctx):
         else:
             knote('cases_with_rekeyed_struct')
             knote('in_' + where)
-        # what hl.literal(v, t) does before it encodes (HailType.typecheck = _traverse + _typecheck_one_level): fields are checked
-        # by name, key order is not its business.  Only a value the front end refuses BECAUSE of its key order is not an input.
+        # what hl.literal(v, t) does before it encodes: fields are checked by name, key order is not its business.  Only a value the front end refuses BECAUSE of its key order is not an input.
         if accepts(t, v):
             knote('frontend_typecheck_accepts')
         elif accepts(t, v0):
@@ -603,3 +620,11 @@ def _encodes(t, v):
 #   S4 write_float64(value + 0.0) (only negative zero)                                        caught  roundtrip/float64-differs + layout/float64-mismatch
 #   S5 ndarray extents not written when a dimension has length 0                              caught  roundtrip/ndarray-zero-extent-raises + layout/...
 #   S6 tuples of exactly 8/16 fields get one missing-bit byte too many, on both sides         caught  layout/tuple-mismatch (Oracle B only)
+#
+# Phase keyorder (struct values whose key order is not the type's field order), scratch worktree, quick tier, seed 0:
+#   seeded/C33-agent6  encoder walks value.values() positionally (missing bits and payload)      caught  */struct-key-order-* (keyorder phase only)
+#   K1 missing bits taken positionally from value.values(), payload still by name                 caught  layout/struct-key-order-mismatch, roundtrip/struct-key-order-*
+#   K2 positional payload only for plain dict values of full length ("avoid the second lookup")   caught  layout/ + roundtrip/struct-key-order-*, encode/...-raises
+# Observation (not C33, not reported as a violation): the public HailType.typecheck(value) raises AttributeError / TypeError for a value
+#   with a missing nested struct / array / interval (its `check` returns True for None and _traverse then iterates None); hl.literal's own
+#   typecheck_expr returns False for None and is what this monitor mirrors.
